@@ -33,6 +33,66 @@ def configs(tier):
     return out
 
 
+def resow_other_n(rep, count):
+    """Monitor of Partition on real observations: a crop sown once is sown again with another number of settings through
+    the same object or a reloaded one.  The re-sow may be refused (ValueError); if it is accepted, the batch files 1..B
+    (B = the number the crop reports) must hold every setting of the new sow exactly once, no batch empty, no other batch file."""
+    import os
+    import shutil
+    import tempfile
+    import random
+    from .. import common
+    xyz = common.use_repo()
+    from xyzpy.gen.cropping import read_from_disk
+    rnd = random.Random(rep.seed + 77)
+    combos_list = []
+    for n in range(3, 14):
+        for mode, val in [("size", s) for s in range(2, 5)] + [("count", k) for k in range(2, 6)]:
+            combos_list.append((n, mode, val))
+    rnd.shuffle(combos_list)
+    for n, mode, val in combos_list[:count]:
+        bs = val if mode == "size" else max(1, n // min(n, val))
+        for n2 in sorted({n - 1, n + 1, n - bs, n + bs} - {n}):
+            if n2 < 1:
+                continue
+            for reloaded in (False, True):
+                tmp = tempfile.mkdtemp(prefix="c07r-", dir=common.scratch("crops"))
+                try:
+                    fn = lambda a: a      # noqa
+                    kw = {"batchsize": val} if mode == "size" else {"num_batches": val}
+                    c = xyz.Crop(fn=fn, name="r", parent_dir=tmp, **kw)
+                    c.sow_combos({"a": list(range(n))}, verbosity=0)
+                    if reloaded:
+                        c = xyz.Crop(fn=fn, name="r", parent_dir=tmp)
+                    case = dict(kind="resow_other_n", n=n, mode=mode, val=val, n2=n2, reloaded=reloaded)
+                    rep.add_case(["resow_other_n", n, mode, val, n2, reloaded], sample=None)
+                    try:
+                        c.sow_combos({"a": list(range(n2))}, verbosity=0)
+                    except ValueError:
+                        continue          # refused: fine
+                    B = c.num_batches
+                    bdir = os.path.join(c.location, "batches")
+                    files = sorted(os.listdir(bdir))
+                    want_files = sorted("xyz-batch-%d.jbdmp" % i for i in range(1, B + 1))
+                    prob = None
+                    if files != want_files:
+                        prob = "the crop reports %d batches but batches/ holds %r" % (B, files)
+                    else:
+                        got = []
+                        for i in range(1, B + 1):
+                            b = read_from_disk(os.path.join(bdir, "xyz-batch-%d.jbdmp" % i))
+                            if len(b) == 0:
+                                prob = "batch %d is empty" % i
+                            got.extend(kw_["a"] for kw_ in b)
+                        if prob is None and sorted(got) != list(range(n2)):
+                            prob = "the batches hold the settings %r, the sow was for %r" % (sorted(got), list(range(n2)))
+                    if prob:
+                        rep.add_violation(case, "sow of %d settings (%s=%d), then an accepted re-sow of %d settings%s: %s" % (
+                            n, mode, val, n2, " from a reloaded crop" if reloaded else "", prob), key=dict(tag="resow_other_n", mode=mode))
+                finally:
+                    shutil.rmtree(tmp, ignore_errors=True)
+
+
 def run(rep):
     rep.rule = ("TLC enumerates every N in 1..%d x every batchsize in 1..N+1 / num_batches in 1..N+2 (and neither) for grids and case "
                 "lists, shuffle at the constructor / at the sow, plain and Runner crops; Partition is an invariant of the model and each "
@@ -47,9 +107,13 @@ def run(rep):
                  sample=1500 if rep.tier == "quick" else 12000)]
     crop.drive(rep, runs, claims=lambda tag: tag in ("batches", "numbers", "outcome_sow", "outcome_reload", "obs_sow", "obs_reload",
                                                      "dir_sow", "dir_reload", "outcome_resow", "obs_resow", "dir_resow"))
+    resow_other_n(rep, 12 if rep.tier == "quick" else 77)
     rep.exhaustive = True
     rep.extra["configurations"] = len(cfgs)
 
 
 def replay(rep, saved):
+    if saved.get("kind") == "resow_other_n":
+        resow_other_n(rep, 77)
+        return
     crop.replay_saved(rep, saved)
